@@ -1,5 +1,8 @@
 use crate::ast::ext::TypeDefinitionExtension;
-use crate::ast::{visit_document, FieldByNameExtension, OperationVisitor, OperationVisitorContext};
+use crate::ast::{
+    visit_document, FieldByNameExtension, OperationVisitor, OperationVisitorContext,
+    SchemaDocumentExtension,
+};
 use crate::static_graphql::query::{Field, OperationDefinition, Selection};
 use crate::validation::utils::{ValidationError, ValidationErrorContext};
 
@@ -58,8 +61,23 @@ impl<'a> OperationVisitor<'a, ValidationErrorContext> for FieldsOnCorrectType {
             let field_name = &field.name;
             let type_name = parent_type.name();
 
-            if field.name.starts_with("__") {
+            // `__typename` is selectable on every composite type, `__schema` and `__type`
+            // only on the query root type.
+            if field_name == "__typename" {
                 return;
+            }
+
+            if field_name == "__schema" || field_name == "__type" {
+                let query_type_name = visitor_context
+                    .schema
+                    .schema_definition()
+                    .query
+                    .as_deref()
+                    .unwrap_or("Query");
+
+                if type_name == query_type_name {
+                    return;
+                }
             }
 
             if parent_type.field_by_name(field_name).is_none() {
